@@ -27,12 +27,14 @@ PutBad(k, d) == /\ WithBad /\ Len(hist) < Depth
                                                /\ last' = IF out[2] = RaisedV THEN last ELSE Upd(last, k, BadV)
 Get(k)    == Do([op |-> "get", k |-> k], last)
 Clear     == Do([op |-> "clear"], Empty)
+Wipe      == WithReopen /\ Kind = "disk" /\ LSize > 0 /\ Do([op |-> "wipe"], last)
 Reopen(m) == WithReopen /\ Kind = "disk" /\ Do([op |-> "reopen", max |-> m, lsize |-> LSize], last)
 
 Next == \/ \E k \in Keys, d \in Durs : Put(k, d)
         \/ \E k \in Keys : PutBad(k, 1)
         \/ \E k \in Keys : Get(k)
         \/ Clear
+        \/ Wipe
         \/ \E m \in 1..Max : Reopen(m)
 
 Spec == Init /\ [][Next]_vars
